@@ -41,6 +41,8 @@ def classify(component, what, case):
     if law == "route_is_store" and head == "str" and re.search(rb"\xf0[\x80-\x8f][\x80-\xbf][\x80-\xbf]", val) \
             and case.get("route") in ("xml", "json-string") and case.get("got") != "R" and case.get("store_under_route_hints") == "R":
         return "F11"
+    if case.get("law") == "dt_day" and case.get("oracle") and not case.get("day_exists"):
+        return "F107"       # a day that does not exist in the month is normalised by timegm() (pinned by the existing suite)
     # F28: date-and-time sort callback compares instants only
     if ty == "t:ietf-yang-types:date-and-time" and law in ("sort_consistent_with_eq", "leaflist_order") and case.get("reply", [None] * 3)[2] == "0":
         return "F28"
